@@ -42,7 +42,7 @@ ASSUMPTIONS = [
     'redefinition of an existing group / alias is outside the property (not an action)',
     'documented rejections (IndexError "multiple phases present", UndefinedPhase, UndefinedChemicalAlias, ValueError of set_alias for a claimed alias) are rejections, and must be history independent too',
 ]
-TOLERANCES = {'value_equality': 0.0, 'cache_bound_slack_entries': 1}
+TOLERANCES = {'value_rtol': 1e-12, 'value_atol': 0.0, 'cache_bound_slack_entries': 1}
 
 POOL = ('Water', 'Ethanol', 'Methanol', 'Propanol', 'Glycerol', 'Octane', 'Acetone', 'AceticAcid')
 VALS = (1.0, 2.5, 0.0, 0.375, 4.0, 0.5, 0.0, 8.0)
@@ -65,8 +65,10 @@ def make_package(order, aliases, groups):
     cs.compile()
     for pos, names in enumerate(aliases):
         for a in names: cs.set_alias(cs.IDs[pos], a)
-    for name, (members, comp) in groups.items():
-        cs.define_group(name, [cs.IDs[m] for m in members], list(comp))
+    for name, spec in groups.items():
+        members, comp = spec[0], spec[1]
+        if len(spec) > 2 and spec[2]: cs.define_group(name, [cs.IDs[m] for m in members], list(comp), wt=True)
+        else: cs.define_group(name, [cs.IDs[m] for m in members], list(comp))
     return cs
 
 
@@ -107,9 +109,15 @@ class Model:
     def add_alias(self, pos, a):
         self.names[a] = pos; self.aliases[pos].append(a)
 
-    def add_group(self, name, members, comp):
+    def add_group(self, name, members, comp, wt=False):
+        """composition given by mol (default) or by weight (wt=True).  The other basis is derived here, from the molecular
+        weights of MY chemical list: x_i ~ w_i / MW_i,  w_i ~ x_i * MW_i."""
         comp = np.asarray(comp, float)
-        self.groups[name] = (list(members), comp / comp.sum())
+        MW = np.array([self.MW[i] for i in members], float)
+        if wt: c_wt = comp; c_mol = comp / MW
+        else: c_mol = comp; c_wt = comp * MW
+        c = c_wt if self.mass else c_mol
+        self.groups[name] = (list(members), c / c.sum())
 
     # -- phases
     def phase_row(self, p):
@@ -209,8 +217,13 @@ def arr(r):
     return np.asarray(r, float)
 
 def same(a, b):
+    """equal shape and equal values; dyadic data compare exactly, the weight-defined group introduces w/MW fractions whose sums may be
+    associated differently by the library and by NumPy: 1e-12 relative slack (DESIGN 1.5), no absolute slack"""
     a = arr(a); b = np.asarray(b, float)
-    return a.shape == b.shape and bool(np.array_equal(a, b))
+    return a.shape == b.shape and bool(np.allclose(a, b, rtol=1e-12, atol=0.0))
+
+def same_data(a, b):
+    return a.shape == b.shape and bool(np.allclose(a, b, rtol=1e-12, atol=0.0))
 
 DOCUMENTED = ('UndefinedChemicalAlias', 'UndefinedPhase')
 
@@ -277,12 +290,13 @@ class C10(System):
 
     @staticmethod
     def _groups(n):
-        # members deliberately NOT in package order, compositions non-uniform and dyadic, no member twice
-        if n == 1: return {'G1': ((0,), (1.0,)), 'G2': ((0,), (1.0,))}
-        if n == 2: return {'G1': ((1, 0), (0.25, 0.75)), 'G2': ((0, 1), (0.5, 0.5))}
-        if n == 3: return {'G1': ((2, 0), (0.25, 0.75)), 'G2': ((1, 2, 0), (0.5, 0.25, 0.25))}
-        if n == 4: return {'G1': ((3, 0), (0.25, 0.75)), 'G2': ((2, 1), (0.75, 0.25))}
-        return {'G1': ((n - 1, 0), (0.25, 0.75)), 'G2': ((2, n - 2, 1), (0.5, 0.25, 0.25))}
+        # members deliberately NOT in package order, compositions non-uniform, no member twice.  G1 is given by mol (dyadic),
+        # G2 BY WEIGHT (define_group(..., wt=True)): its molar split is w_i / MW_i normalised, evaluated by the model
+        if n == 1: return {'G1': ((0,), (1.0,)), 'G2': ((0,), (1.0,), True)}
+        if n == 2: return {'G1': ((1, 0), (0.25, 0.75)), 'G2': ((0, 1), (0.5, 0.5), True)}
+        if n == 3: return {'G1': ((2, 0), (0.25, 0.75)), 'G2': ((1, 2, 0), (0.5, 0.25, 0.25), True)}
+        if n == 4: return {'G1': ((3, 0), (0.25, 0.75)), 'G2': ((2, 1), (0.75, 0.25), True)}
+        return {'G1': ((n - 1, 0), (0.25, 0.75)), 'G2': ((2, n - 2, 1), (0.5, 0.25, 0.25), True)}
 
     @staticmethod
     def _twin_groups(n):
@@ -306,7 +320,7 @@ class C10(System):
             st.pending_groups = {'G2': groups.pop('G2')}
         for p, al in enumerate(aliases):
             for a in al: m.add_alias(p, a)
-        for g, (mem, comp) in groups.items(): m.add_group(g, mem, comp)
+        for g, spec in groups.items(): m.add_group(g, *spec)
         st.broken = None
         try:
             st.cs = make_package(order, aliases, groups)
@@ -317,9 +331,6 @@ class C10(System):
                                   f'{type(e).__name__}: {e}', match=dict(op='build', exc=type(e).__name__, where=(fr[-1].name if fr else 'outside')))
             return st
         if basis == 'mass':
-            # wt compositions of a group defined by mol: comp*MW normalised (not dyadic) -> use my own evaluation
-            for g, (mem, comp) in list(m.groups.items()):
-                w = comp * np.array([m.MW[i] for i in mem]); m.groups[g] = (mem, w / w.sum())
             CI, MI = t.indexer.ChemicalMassFlowIndexer, t.indexer.MassFlowIndexer
         else:
             CI, MI = t.indexer.ChemicalMolarFlowIndexer, t.indexer.MolarFlowIndexer
@@ -367,10 +378,7 @@ class C10(System):
             for p, names in enumerate(al):
                 for a in names: m3.add_alias(p, a)
             tg = self._twin_groups(n)
-            for g, (mem, comp) in tg.items(): m3.add_group(g, mem, comp)
-            if m.mass:
-                for g, (mem, comp) in list(m3.groups.items()):
-                    w = comp * np.array([m3.MW[i] for i in mem]); m3.groups[g] = (mem, w / w.sum())
+            for g, spec in tg.items(): m3.add_group(g, *spec)
             st.tcs = make_package(m.order, al, tg)
             st.mi3 = st.MI.blank(m.phases, st.tcs)
             for i in range(n):
@@ -586,7 +594,7 @@ class C10(System):
     def _fresh(self, st):
         """freshly built package + indexers with the same name table and the same data"""
         m = st.m
-        groups = {g: (tuple(mem), tuple(self._gcomp(st, g))) for g, (mem, comp) in m.groups.items()}
+        groups = {g: self._groups(m.N)[g] for g in m.groups}
         # the twin package is pooled per name table (its only mutable state are the two look-up caches, emptied here)
         sig = (m.order, tuple(tuple(x) for x in m.aliases), tuple(sorted(groups.items())))
         cs = self._pk.get(sig)
@@ -651,13 +659,12 @@ class C10(System):
                             match=dict(op='set_alias'))
         if op == 'group':
             g = a[1]
-            mem, comp = st.pending_groups.pop(g)
-            try: st.cs.define_group(g, [m.IDs[i] for i in mem], list(comp))
+            spec = st.pending_groups.pop(g)
+            mem, comp = spec[0], spec[1]
+            try: st.cs.define_group(g, [m.IDs[i] for i in mem], list(comp), wt=bool(len(spec) > 2 and spec[2]))
             except Exception as e:
                 raise Violation('unexpected-exception', f'define_group raised {type(e).__name__}: {e}', match=dict(op='define_group', exc=type(e).__name__))
-            m.add_group(g, mem, comp)
-            if m.mass:
-                w = m.groups[g][1] * np.array([m.MW[i] for i in mem]); m.groups[g] = (list(mem), w / w.sum())
+            m.add_group(g, *spec)
             return ('ok',)
         raise ValueError(a)
 
@@ -742,7 +749,7 @@ class C10(System):
         self._check_unchanged(st, match, clause='set-entries',
                               what=f'set {tgt}[{key!r}] = {v[1]!r}')
         if fresh is not None:
-            if not (np.array_equal(arr(fci.data), arr(st.ci.data)) and np.array_equal(arr(fmi.data), arr(st.mi.data))):
+            if not (same_data(arr(fci.data), arr(st.ci.data)) and same_data(arr(fmi.data), arr(st.mi.data))):
                 raise Violation('history-dependent-value', f'set {tgt}[{key!r}] = {v[1]!r} left other data than on a freshly built indexer', match=match)
         # read back
         rb = self._do(ix, 'get', key)
@@ -782,13 +789,13 @@ class C10(System):
     def _check_unchanged(self, st, match, clause='data-changed-by-read', what='the look-up'):
         m = st.m
         a = arr(st.ci.data); b = arr(st.mi.data)
-        if not np.array_equal(a, m.d):
+        if not same_data(a, m.d):
             raise Violation(clause, f'{what}: single-phase data are {a.tolist()!r}, expected {m.d.tolist()!r}', match=dict(match, data='ci'))
-        if not np.array_equal(b, m.D):
+        if not same_data(b, m.D):
             raise Violation(clause, f'{what}: multi-phase data are {b.tolist()!r}, expected {m.D.tolist()!r}', match=dict(match, data='mi'))
-        if st.mi3 is not None and not np.array_equal(arr(st.mi3.data), st.m3.D):
+        if st.mi3 is not None and not same_data(arr(st.mi3.data), st.m3.D):
             raise Violation(clause, f'{what}: data of the indexer on the twin package are {arr(st.mi3.data).tolist()!r}, expected {st.m3.D.tolist()!r}', match=dict(match, data='mi3'))
-        if not np.array_equal(arr(st.mi2.data), st.m2.D):
+        if not same_data(arr(st.mi2.data), st.m2.D):
             raise Violation(clause, f'{what}: data of the second multi-phase indexer changed', match=dict(match, data='mi2'))
 
     # ---- floods --------------------------------------------------------------------------------------------------------
